@@ -223,4 +223,7 @@ let handle (line : string) (kind : string) (args : string list) (obs : string) :
   | "queries" -> handle_queries line args obs
   | "perft" -> handle_perft line args obs
   | "zkeys" | "bscript" -> Dispatch2.handle line kind args obs
-  | _ -> Dispatch3.handle line kind args obs
+  | "absearch" | "halt" -> Dispatch3.handle line kind args obs
+  | "fenrt" | "decode" | "parsemove" | "parsesq" | "engmove" | "engfen" | "ucipos" -> Dispatch4.handle line kind args obs
+  | "ttseq" -> Dispatch5.handle line kind args obs
+  | _ -> Dispatch6.handle line kind args obs
